@@ -347,7 +347,7 @@ pub fn run_c05(ctx: &Ctx) -> i32 {
             "leaves are scored by the engine's own quiescence search on a full window (as the property defines the reference); that search is not itself compared with anything except for window consistency".into(),
             "depths above 5 and non-fresh engines are outside this check".into(),
         ],
-        required: if ctx.replay.is_some() { vec![] } else { vec!["judged_depth_1_id", "judged_depth_2_id", "judged_depth_3_id", "judged_depth_4_fixed", "cached_claims_audited", "claims_exact", "claims_lower", "claims_upper", "quiescence_windows_checked", "runs_with_same_depth_cached_result_returned", "value_attained_only_by_underpromotion", "value_attained_by_a_single_move"] },
+        required: if ctx.replay.is_some() { vec![] } else { vec!["judged_depth_1_id", "judged_depth_2_id", "judged_depth_3_id", "judged_depth_4_fixed", "cached_claims_audited", "claims_exact", "claims_lower", "claims_upper", "quiescence_windows_checked", "runs_with_same_depth_cached_result_returned", "value_attained_only_by_underpromotion", "value_attained_by_a_single_move", "depth_4_fixed_on_positions_with_many_men"] },
         exhaustive: false,
         extra: vec![],
     };
@@ -377,7 +377,7 @@ pub fn run_c05(ctx: &Ctx) -> i32 {
         }
         return finalize(ctx, spec, st);
     }
-    let n_id = ctx.budget(1400, 24_000);
+    let n_id = ctx.budget(1100, 24_000);
     let n_fixed = ctx.budget(160, 2400);
     let n_qw = ctx.budget(3000, 60_000);
     let total = parallel(ctx.workers, |w| {
@@ -405,7 +405,7 @@ pub fn run_c05(ctx: &Ctx) -> i32 {
         let mut i = 0u64;
         let target = share(n_id);
         let mut judged = 0;
-        while judged < target && !ctx.out_of_time() {
+        while judged < target && !ctx.past(0.5) {
             let p = c05_position(&mut rng, i);
             i += 1;
             let d = 1 + rng.below(3) as u8;
@@ -418,20 +418,56 @@ pub fn run_c05(ctx: &Ctx) -> i32 {
                 break;
             }
         }
+        if w == 0 {
+            say!("C05 worker 0: depth 1..3 part done at {:.1}s", ctx.start.elapsed().as_secs_f64());
+        }
         // depth 4..5 single fixed-depth searches on few-men positions
         let target = share(n_fixed);
         let mut tried = 0;
-        while tried < target && !ctx.out_of_time() {
+        while tried < target && (tried < 2 || !ctx.past(0.7)) {
             let men = if rng.chance(1, 2) { 6 } else { 8 };
             let p = gen::g_small(&mut rng, men);
             let d = if ctx.quick() || rng.chance(3, 4) { 4 } else { 5 };
             c05_case(&p, d, "fixed", &mut rs, &mut st, d == 4 && rng.chance(1, 3));
             tried += 1;
         }
+        if w == 0 {
+            say!("C05 worker 0: few-men depth 4..5 part done at {:.1}s", ctx.start.elapsed().as_secs_f64());
+        }
+        // depth 4 single fixed-depth searches on full-board middlegames and late-game positions
+        // (pruning that only switches on with many men or at depth >= 4 shows here); the reference
+        // gets a larger budget for these few cases
+        let mut rs_big = RefSearch::new(if ctx.quick() { 1_500_000 } else { 6_000_000 }, 20_000);
+        let target = ctx.budget(24, 400) / ctx.workers as u64 + 1;
+        let mut tried = 0;
+        let mut attempts = 0;
+        while tried < target && attempts < target * 6 && (tried < 1 || !ctx.past(0.85)) {
+            attempts += 1;
+            let p = if rng.chance(1, 2) {
+                gen::g_game_pos(&mut rng)
+            } else {
+                let n = rng.range(50, 140) as usize;
+                gen::playout(&Pos::start(), &mut rng, n).0.last().unwrap().clone()
+            };
+            let nl = p.legal_moves().len();
+            if nl < 2 || nl > 28 {
+                continue;
+            }
+            let before = st.count("judged_depth_4_fixed") + st.count("excluded_deeper_cached_result_reused");
+            c05_case(&p, 4, "fixed", &mut rs_big, &mut st, false);
+            if st.count("judged_depth_4_fixed") + st.count("excluded_deeper_cached_result_reused") > before {
+                st.bump("depth_4_fixed_on_positions_with_many_men");
+                st.maxi("max_men_in_a_depth_4_case", p.piece_count() as u64);
+            }
+            tried += 1;
+        }
+        if w == 0 {
+            say!("C05 worker 0: many-men depth 4 part done at {:.1}s", ctx.start.elapsed().as_secs_f64());
+        }
         // quiescence window consistency
         let mut s = Searcher::new();
         for k in 0..share(n_qw) {
-            if ctx.out_of_time() {
+            if k >= 8 && ctx.out_of_time() {
                 break;
             }
             let p = match k % 4 {
